@@ -543,5 +543,35 @@ def r11_11(ctx):
     return r
 
 
+def r11_12(ctx):
+    """peers that pack a whole flight into one datagram (the reference implementation, pion, browsers) retransmit
+    [ClientKeyExchange (epoch 0)] [ChangeCipherSpec] [Finished (epoch 1)] as ONE datagram. Once keys exist the stale
+    plaintext records are ignored - rightly - but ignoring must not be an error: handle_incoming_packet propagates an
+    error of one record with `?` and the rest of the datagram, the repeated Finished, is thrown away; the already
+    connected server then never re-sends its lost final flight and the client times out. So: from the edge on which a
+    record is classified 'plaintext although keys exist' no error return of handle_decrypted_record is reachable."""
+    r = RuleResult("R11.12", "K4", "ignoring a stale plaintext record does not discard the rest of its datagram")
+    fn = D + "handle_decrypted_record::{closure#0}"
+    b = ctx.body(fn)
+    r.scope.append(fn)
+
+    def ignore_edge(term, meaning, *_):
+        return term[0] == "call" and term[1].endswith("::is_some") and mir.has_field(term, "session_keys") and meaning is True
+    edges = core.guard_edges(b, ignore_edge)
+    r.need("'plaintext although keys exist' decisions", len(edges), 2)
+    errs = set(core.err_return_blocks(b))
+    be = b.back_edges()
+    for sb, tgt in edges:
+        reach = b.reachable([tgt], cut_edges=be)
+        bad = sorted(x for x in reach if x in errs)
+        if bad:
+            r.violate(fn, "ignore:error", b.where(sb),
+                      "a plaintext record that is ignored because keys exist makes handle_decrypted_record return an error (%s): the remaining "
+                      "records of the datagram - the retransmitted Finished of a peer that packs its flight into one datagram - are discarded" % b.where(bad[0]))
+        else:
+            r.ok({"site": b.where(sb), "then": "falls through to Ok: later records of the datagram are still processed"})
+    return r
+
+
 def run(ctx):
-    return [r11_1(ctx), r11_2(ctx), r11_3(ctx), r11_4(ctx), r11_5(ctx), r11_6(ctx), r11_7(ctx), r11_8(ctx), r11_9(ctx), r11_10(ctx), r11_11(ctx)]
+    return [r11_1(ctx), r11_2(ctx), r11_3(ctx), r11_4(ctx), r11_5(ctx), r11_6(ctx), r11_7(ctx), r11_8(ctx), r11_9(ctx), r11_10(ctx), r11_11(ctx), r11_12(ctx)]
